@@ -1140,6 +1140,14 @@ def cli_fix_then_check(text, style, dicts, extra_args=(), tmp=None):
         if "Traceback" in p1.stderr or "Traceback" in p2.stderr:
             err = (p1.stderr + p2.stderr)[-300:]
         rej = (p2.stdout + p2.stderr) if "Error" in (p2.stdout + p2.stderr) and "Unexpected token" in (p2.stdout + p2.stderr) else None
+        # once more on the file just written: a --fix run that may have nothing left to fix (and then writes nothing)
+        # must still print what a fresh check prints
+        second = None
+        if rej is None and err is None:
+            p3 = subprocess.run(args + ["--fix", "-f", f], stdout=subprocess.PIPE, stderr=subprocess.PIPE, text=True, timeout=600, cwd=tmp)
+            p4 = subprocess.run(args + ["-f", f], stdout=subprocess.PIPE, stderr=subprocess.PIPE, text=True, timeout=600, cwd=tmp)
+            second = ([x.replace(f, "t.vhd") for x in cli_violations(p3.stdout)], [x.replace(f, "t.vhd") for x in cli_violations(p4.stdout)])
+        _W["cli_second"] = second
         return v1, v2, p1.returncode, p2.returncode, err, rej, fixed
     finally:
         if own:
@@ -1150,7 +1158,8 @@ def cli_job(arg):
     inp, extra = arg
     try:
         v1, v2, rc1, rc2, err, rej, fixed = cli_fix_then_check(inp["text"], inp.get("style"), inp.get("config_dicts"), extra)
-        return {"input": inp, "extra": list(extra), "v1": v1, "v2": v2, "rc": [rc1, rc2], "err": err, "rejected": rej and " ".join(rej.split())[:300]}
+        second = _W.pop("cli_second", None)
+        return {"input": inp, "extra": list(extra), "v1": v1, "v2": v2, "second": second, "rc": [rc1, rc2], "err": err, "rejected": rej and " ".join(rej.split())[:300]}
     except Exception:  # noqa: BLE001
         return {"input": inp, "extra": list(extra), "harness": traceback.format_exc()[-500:]}
 
@@ -1254,7 +1263,11 @@ def run(prop, tier):
                     ex += ["--skip_phase", *[str(x) for x in j["skip_phase"]]]
                 _W.setdefault("tables", tables)
                 known = [k for k in in_process.get(json.dumps({k: v for k, v in j.items() if k != "text"}, sort_keys=True), []) if k in distinct]
-                cli_inputs.append((job_desc(j, style, dicts, sweep.job_text(j)), tuple(ex), known[0] if known else None))
+                text = sweep.job_text(j)
+                if len(cli_inputs) % 2 == 0:
+                    # something only a report-only (Warning) rule has to say: a line beyond column 120 (length_001)
+                    text = text.rstrip("\n") + "\n-- " + "long comment line " * 8 + "\n"
+                cli_inputs.append((job_desc(j, style, dicts, text), tuple(ex), known[0] if known else None))
             cli_res = pool.map(cli_job, [(a, b) for a, b, _ in cli_inputs], chunksize=1)
             cli_diff = 0
             cli_samples = []
@@ -1264,6 +1277,12 @@ def run(prop, tier):
                     continue
                 differs = cr["v1"] != cr["v2"] or bool(cr["rejected"])
                 cli_diff += differs
+                if cr.get("second") and cr["second"][0] != cr["second"][1] and cr["v1"] == cr["v2"]:
+                    # the first fix run printed what the fresh check printed, the second one does not
+                    c3, c4 = collections.Counter(cr["second"][0]), collections.Counter(cr["second"][1])
+                    k3 = ("apply_rules", "cliReportDiffersSecondFix")
+                    counts["%s|%s" % k3] += 1
+                    distinct.setdefault(k3, {"site": k3[0], "kind": k3[1], "detail": {"args": list(ex), "only_printed_by_second_fix_run": sorted((c3 - c4).elements())[:4], "only_printed_by_fresh_run": sorted((c4 - c3).elements())[:4]}, "input": inp})
                 cli_samples.append({"path": inp.get("path"), "variant": inp.get("variant"), "config": inp.get("config"), "extra": list(ex), "printed_by_fix_run": len(cr["v1"]), "printed_by_fresh_run": len(cr["v2"]), "differs": differs, "predicted_by_in_process_finding": key and "%s/%s" % key})
                 if differs:
                     c1, c2 = collections.Counter(cr["v1"]), collections.Counter(cr["v2"])
